@@ -8,7 +8,9 @@ def run(tree, rep, tier):
     T = Tables(tree)
     T.inventory(rep)
     files = T.stab  # all stabilizer files incl. stray ones
-    K = K3_class_tables(rep, Flow(tree))   # K(n) as the classifier's tables define it (must equal 2/5/18/93/760)
+    flow = Flow(tree)
+    flow.describe(rep)
+    K = K3_class_tables(rep, flow)   # K(n) as the classifier's tables define it (must equal 2/5/18/93/760)
     T1_line_count(rep, T, files, K)
     grammar(rep, T, files, rules=("T2", "T3"))
     T5_T6_cost_depth(rep, T, files)
